@@ -28,7 +28,7 @@ META = {
         'group built after all MASKBITS rows; C07.ACCUM - a row extends its group when the group already exists (never '
         'replaces it); C07.NO-MEMO - no function reading the reconfigurable cache is memoised. NOT decided: the set-algebra '
         'identities on concrete files (follow from the above plus dict semantics; not mechanised), += vs |= for repeated labels.'),
-    'floors': {'C07.CASEFOLD': 8, 'C07.GUARDED': 5, 'C07.SCAN64': 4, 'C07.U64': 4, 'C07.ALIAS': 1, 'C07.ACCUM': 1, 'C07.NO-MEMO': 3},
+    'floors': {'C07.CASEFOLD-STORE': 6, 'C07.WRAP': 1, 'C07.CASEFOLD': 8, 'C07.GUARDED': 5, 'C07.SCAN64': 4, 'C07.U64': 4, 'C07.ALIAS': 1, 'C07.ACCUM': 1, 'C07.NO-MEMO': 3},
 }
 
 SDSS = 'pydl/pydlutils/sdss.py'
@@ -232,6 +232,56 @@ def is_u64(e, fa, depth=0):
     return False
 
 
+def check_shift_scan(ctx, f, fa):
+    """The other spelling of the bit scan: `for bit in range(64): if v & 1: ...; v >>= 1`.  The bit number is right only
+    if the shift happens on EVERY path to the next iteration."""
+    loops = []
+    for n in walk_local(f.node):
+        if isinstance(n, ast.For) and isinstance(n.iter, ast.Call) and call_name(n.iter) == 'range':
+            sh = [x for x in walk_local(n) if isinstance(x, ast.AugAssign) and isinstance(x.op, ast.RShift) and isinstance(x.target, ast.Name)]
+            if sh:
+                loops.append((n, sh))
+    ctx.need(len(loops) == 1, 'sdss_flagname: bit scan comprehension over range() not found')
+    lp, shifts = loops[0]
+    rargs = [try_fold(a) for a in lp.iter.args]
+    ctx.check('C07.SCAN64', rargs in ([64], [0, 64], [0, 64, 1]), f, lp.iter, 'bit scan covers range(64) in ascending order',
+              msg='the bit scan is %s: bit 63 (or low bits) is never reported / the order is not ascending' % src(lp.iter),
+              construct='scan range ' + src(lp.iter))
+    v = shifts[0].target.id
+    one = try_fold(shifts[0].value, resolver=fa.resolve)
+    ctx.check('C07.SCAN64', one == 1 or is_u64(shifts[0].value, fa), f, shifts[0], 'the value is shifted down by one per bit', msg='the scan shifts by %s' % src(shifts[0].value),
+              construct='scan shift ' + src(shifts[0]))
+    tests = [t for t in walk_local(lp) if isinstance(t, ast.BinOp) and isinstance(t.op, ast.BitAnd) and v in {x.id for x in ast.walk(t) if isinstance(x, ast.Name)}]
+    ctx.check('C07.SCAN64', bool(tests), f, tests[0] if tests else lp, 'a bit is selected when value & 1 != 0', msg='the scan does not test the lowest bit of the shifted value',
+              construct='scan condition')
+    for side in ([tests[0].left, tests[0].right] if tests else []) + [shifts[0].value]:
+        if isinstance(side, ast.BinOp):
+            continue
+        ctx.check('C07.U64', is_u64(side, fa), f, side, 'sdss_flagname: operand `%s` of the scan is numpy uint64' % src(side),
+                  msg='sdss_flagname: operand `%s` is not a numpy uint64: bit 63 overflows a signed or float intermediate' % src(side),
+                  construct='non-uint64 operand %s in the shift scan' % src(side))
+    cfg = fa.cfg
+    heads = [n for n in cfg.nodes_of(lp) if n.kind == 'for']
+    ctx.need(heads, 'sdss_flagname: loop header not in the CFG')
+    through = [n for s_ in shifts for n in cfg.nodes_of(s_)]
+    starts = []
+    for h in heads:
+        starts.extend(m for m, l in h.succ if l == 'iter')
+    seen = cfg.reachable_from(starts, avoid=through)
+    skipped = [h for h in heads if h.id in seen]
+    ctx.check('C07.SCAN64', not skipped, f, shifts[0], 'every path through the loop body shifts the value before the next bit is examined',
+              msg='a path through the scan loop reaches the next iteration without `%s` (a continue / missing else): after an undefined set bit every '
+                  'later bit is read one position late and gets the wrong label' % src(shifts[0]),
+              construct='scan loop skips ' + src(shifts[0]))
+    apps = [c for c in walk_local(lp) if isinstance(c, ast.Call) and call_name(c) == 'append']
+    ctx.check('C07.SCAN64', bool(apps), f, apps[0] if apps else lp, 'labels are appended while iterating the scanned bits in ascending order',
+              msg='labels are not appended inside the scan loop', construct='result order in sdss_flagname')
+    eqs = [c for c in walk_local(lp) if isinstance(c, ast.Compare) and len(c.ops) == 1 and isinstance(c.ops[0], ast.Eq)
+           and isinstance(lp.target, ast.Name) and lp.target.id in {x.id for x in ast.walk(c) if isinstance(x, ast.Name)}]
+    ctx.check('C07.SCAN64', bool(eqs), f, eqs[0] if eqs else lp, 'a label is selected for a scanned bit by equality of its stored bit',
+              msg='labels are not selected by equality with the scanned bit', construct='label selection in sdss_flagname')
+
+
 def run(ctx):
     repo = ctx.repo
     f_exist = repo.func(SDSS, 'sdss_flagexist')
@@ -295,66 +345,68 @@ def run(ctx):
             g0 = n.generators[0]
             if isinstance(g0.iter, ast.Call) and call_name(g0.iter) == 'range':
                 scan = n
-    ctx.need(scan is not None, 'sdss_flagname: bit scan comprehension over range() not found')
-    g0 = scan.generators[0]
-    rargs = [try_fold(a) for a in g0.iter.args]
-    full = rargs == [64] or rargs == [0, 64] or rargs == [0, 64, 1]
-    ctx.check('C07.SCAN64', full, f_name, g0.iter, 'bit scan covers range(64) in ascending order',
-              msg='the bit scan is %s: bit 63 (or low bits) is never reported / the order is not ascending' % src(g0.iter),
-              construct='scan range ' + src(g0.iter))
-    var = g0.target.id if isinstance(g0.target, ast.Name) else None
-    cond = g0.ifs[0] if g0.ifs else None
-    okc = cond is not None and any(isinstance(x, ast.BinOp) and isinstance(x.op, ast.BitAnd) for x in ast.walk(cond)) and any(
-        isinstance(x, ast.BinOp) and isinstance(x.op, (ast.LShift, ast.Pow)) and var in {y.id for y in ast.walk(x.right) if isinstance(y, ast.Name)}
-        for x in ast.walk(cond))
-    ctx.check('C07.SCAN64', okc, f_name, cond or scan, 'a bit is selected when value & (1 << bit) != 0',
-              msg='the scan condition does not test value & (1 << bit)', construct='scan condition ' + (src(cond) if cond else 'none'))
-    # operands of the scan are uint64
-    for x in ast.walk(cond) if cond is not None else []:
-        if isinstance(x, ast.BinOp) and isinstance(x.op, (ast.LShift, ast.BitAnd, ast.Pow)):
-            for side in (x.left, x.right):
-                if isinstance(side, ast.BinOp):
-                    continue
-                ctx.check('C07.U64', is_u64(side, fa_n), f_name, side, 'sdss_flagname: operand `%s` of `%s` is numpy uint64' % (src(side), src(x)[:40]),
-                          msg='sdss_flagname: operand `%s` is not a numpy uint64: bit 63 overflows a signed or float intermediate' % src(side),
-                          construct='non-uint64 operand %s in %s' % (src(side), src(x)[:50]))
-    # result built in scan order, label by equality
-    scan_name = None
-    p = getattr(scan, '_parent', None)
-    if isinstance(p, ast.Assign) and isinstance(p.targets[0], ast.Name):
-        scan_name = p.targets[0].id
-    rets = [r for r in walk_local(f_name.node) if isinstance(r, ast.Return) and r.value is not None]
-    builders = []
-    for n in walk_local(f_name.node):
-        if isinstance(n, ast.For) and isinstance(n.iter, ast.Name) and n.iter.id == scan_name and any(
-                isinstance(c, ast.Call) and call_name(c) == 'append' for c in walk_local(n)):
-            builders.append(('loop', n))
-        if isinstance(n, (ast.ListComp,)) and n is not scan and isinstance(getattr(n, '_parent', None), ast.Assign) \
-                and isinstance(n._parent.targets[0], ast.Name) and n._parent.targets[0].id in {x.id for r in rets for x in ast.walk(r.value) if isinstance(x, ast.Name)}:
-            first = n.generators[0].iter
-            builders.append(('comp-scan' if (isinstance(first, ast.Name) and first.id == scan_name) else 'comp-other', n))
-    good = [b for b in builders if b[0] in ('loop', 'comp-scan')]
-    bad = [b for b in builders if b[0] == 'comp-other']
-    ctx.check('C07.SCAN64', bool(good) and not bad, f_name, (bad or good or [(None, scan)])[0][1],
-              'labels are appended while iterating the scanned bits in ascending order',
-              msg='the returned labels are produced by iterating %s, not the ascending bit scan: the order follows the file, not the bit number'
-                  % (src(bad[0][1].generators[0].iter) if bad else 'something else'),
-              construct='result order in sdss_flagname')
-    eqs = [c for c in walk_local(f_name.node) if isinstance(c, ast.Compare) and len(c.ops) == 1 and isinstance(c.ops[0], ast.Eq)
-           and any(isinstance(x, ast.Name) and fa_n_is_scan_elem(x, fa_n, scan_name) for x in ast.walk(c))]
-    ctx.check('C07.SCAN64', bool(eqs), f_name, eqs[0] if eqs else scan, 'a label is selected for a scanned bit by equality of its stored bit',
-              msg='labels are not selected by equality with the scanned bit (membership in a collection ignores order / duplicates)',
-              construct='label selection in sdss_flagname')
-    # group lookup only while iterating set bits
-    for node, kind, key, level in cache_uses(f_name):
-        if kind == 'sub' and level == 'group':
-            inloop = any(isinstance(a, ast.For) and isinstance(a.iter, ast.Name) and a.iter.id == scan_name for a in ancestors(node)) or \
-                any(isinstance(a, (ast.ListComp, ast.GeneratorExp)) and isinstance(a.generators[0].iter, ast.Name) and a.generators[0].iter.id == scan_name
-                    for a in ancestors(node)) or \
-                any(isinstance(a, ast.If) and isinstance(a.test, ast.Name) and a.test.id == scan_name for a in ancestors(node))
-            ctx.check('C07.GUARDED', inloop, f_name, node, 'sdss_flagname looks the group up only while visiting set bits (a zero value names no bits in any group)',
-                      msg='sdss_flagname looks the group up even when no bit is set: a zero value raises KeyError for an unknown group',
-                      construct='group lookup outside the set-bit loop')
+    if scan is None:
+        check_shift_scan(ctx, f_name, fa_n)
+    else:
+        g0 = scan.generators[0]
+        rargs = [try_fold(a) for a in g0.iter.args]
+        full = rargs == [64] or rargs == [0, 64] or rargs == [0, 64, 1]
+        ctx.check('C07.SCAN64', full, f_name, g0.iter, 'bit scan covers range(64) in ascending order',
+                  msg='the bit scan is %s: bit 63 (or low bits) is never reported / the order is not ascending' % src(g0.iter),
+                  construct='scan range ' + src(g0.iter))
+        var = g0.target.id if isinstance(g0.target, ast.Name) else None
+        cond = g0.ifs[0] if g0.ifs else None
+        okc = cond is not None and any(isinstance(x, ast.BinOp) and isinstance(x.op, ast.BitAnd) for x in ast.walk(cond)) and any(
+            isinstance(x, ast.BinOp) and isinstance(x.op, (ast.LShift, ast.Pow)) and var in {y.id for y in ast.walk(x.right) if isinstance(y, ast.Name)}
+            for x in ast.walk(cond))
+        ctx.check('C07.SCAN64', okc, f_name, cond or scan, 'a bit is selected when value & (1 << bit) != 0',
+                  msg='the scan condition does not test value & (1 << bit)', construct='scan condition ' + (src(cond) if cond else 'none'))
+        # operands of the scan are uint64
+        for x in ast.walk(cond) if cond is not None else []:
+            if isinstance(x, ast.BinOp) and isinstance(x.op, (ast.LShift, ast.BitAnd, ast.Pow)):
+                for side in (x.left, x.right):
+                    if isinstance(side, ast.BinOp):
+                        continue
+                    ctx.check('C07.U64', is_u64(side, fa_n), f_name, side, 'sdss_flagname: operand `%s` of `%s` is numpy uint64' % (src(side), src(x)[:40]),
+                              msg='sdss_flagname: operand `%s` is not a numpy uint64: bit 63 overflows a signed or float intermediate' % src(side),
+                              construct='non-uint64 operand %s in %s' % (src(side), src(x)[:50]))
+        # result built in scan order, label by equality
+        scan_name = None
+        p = getattr(scan, '_parent', None)
+        if isinstance(p, ast.Assign) and isinstance(p.targets[0], ast.Name):
+            scan_name = p.targets[0].id
+        rets = [r for r in walk_local(f_name.node) if isinstance(r, ast.Return) and r.value is not None]
+        builders = []
+        for n in walk_local(f_name.node):
+            if isinstance(n, ast.For) and isinstance(n.iter, ast.Name) and n.iter.id == scan_name and any(
+                    isinstance(c, ast.Call) and call_name(c) == 'append' for c in walk_local(n)):
+                builders.append(('loop', n))
+            if isinstance(n, (ast.ListComp,)) and n is not scan and isinstance(getattr(n, '_parent', None), ast.Assign) \
+                    and isinstance(n._parent.targets[0], ast.Name) and n._parent.targets[0].id in {x.id for r in rets for x in ast.walk(r.value) if isinstance(x, ast.Name)}:
+                first = n.generators[0].iter
+                builders.append(('comp-scan' if (isinstance(first, ast.Name) and first.id == scan_name) else 'comp-other', n))
+        good = [b for b in builders if b[0] in ('loop', 'comp-scan')]
+        bad = [b for b in builders if b[0] == 'comp-other']
+        ctx.check('C07.SCAN64', bool(good) and not bad, f_name, (bad or good or [(None, scan)])[0][1],
+                  'labels are appended while iterating the scanned bits in ascending order',
+                  msg='the returned labels are produced by iterating %s, not the ascending bit scan: the order follows the file, not the bit number'
+                      % (src(bad[0][1].generators[0].iter) if bad else 'something else'),
+                  construct='result order in sdss_flagname')
+        eqs = [c for c in walk_local(f_name.node) if isinstance(c, ast.Compare) and len(c.ops) == 1 and isinstance(c.ops[0], ast.Eq)
+               and any(isinstance(x, ast.Name) and fa_n_is_scan_elem(x, fa_n, scan_name) for x in ast.walk(c))]
+        ctx.check('C07.SCAN64', bool(eqs), f_name, eqs[0] if eqs else scan, 'a label is selected for a scanned bit by equality of its stored bit',
+                  msg='labels are not selected by equality with the scanned bit (membership in a collection ignores order / duplicates)',
+                  construct='label selection in sdss_flagname')
+        # group lookup only while iterating set bits
+        for node, kind, key, level in cache_uses(f_name):
+            if kind == 'sub' and level == 'group':
+                inloop = any(isinstance(a, ast.For) and isinstance(a.iter, ast.Name) and a.iter.id == scan_name for a in ancestors(node)) or \
+                    any(isinstance(a, (ast.ListComp, ast.GeneratorExp)) and isinstance(a.generators[0].iter, ast.Name) and a.generators[0].iter.id == scan_name
+                        for a in ancestors(node)) or \
+                    any(isinstance(a, ast.If) and isinstance(a.test, ast.Name) and a.test.id == scan_name for a in ancestors(node))
+                ctx.check('C07.GUARDED', inloop, f_name, node, 'sdss_flagname looks the group up only while visiting set bits (a zero value names no bits in any group)',
+                          msg='sdss_flagname looks the group up even when no bit is set: a zero value raises KeyError for an unknown group',
+                          construct='group lookup outside the set-bit loop')
     # flagval contribution
     fa_v = FA(f_val)
     contribs = []
@@ -427,6 +479,58 @@ def run(ctx):
                   'alias entry is a copy of the aliased group dict, built after every MASKBITS row has been processed',
                   msg='alias entries are not built from a copy of the completed group dict after all rows (an alias must behave like its group)',
                   construct='alias store: ' + src(st)[:90])
+    # ---- CASEFOLD-STORE: the readers fold the query with upper(); the writer of the cache must fold the stored keys the same way
+    def folded(e):
+        if isinstance(e, ast.Call) and call_name(e) == 'upper':
+            return True
+        if isinstance(e, ast.Name):
+            ds = fa_s.defs(e)
+            return bool(ds) and all(v is not None and folded(v) for d, v in ds)
+        return False
+    keys = []
+    for st, t in stores:
+        keys.append((st, t.slice, 'group key'))
+        v = st.value
+        if isinstance(v, ast.Dict):
+            for k_ in v.keys:
+                if k_ is not None:
+                    keys.append((st, k_, 'label key'))
+        if isinstance(v, ast.Call) and call_name(v) == 'copy':
+            for x in ast.walk(v.func):
+                if isinstance(x, ast.Subscript) and isinstance(x.value, ast.Name) and x.value.id == CACHE:
+                    keys.append((st, x.slice, 'aliased group key'))
+    for st in walk_local(f_set.node):
+        if isinstance(st, ast.Assign):
+            for t in st.targets:
+                if isinstance(t, ast.Subscript) and isinstance(t.value, ast.Subscript) and isinstance(t.value.value, ast.Name) and t.value.value.id == CACHE:
+                    keys.append((st, t.value.slice, 'group key'))
+                    keys.append((st, t.slice, 'label key'))
+        elif isinstance(st, ast.Compare) and len(st.ops) == 1 and isinstance(st.ops[0], (ast.In, ast.NotIn)) \
+                and isinstance(st.comparators[0], ast.Name) and st.comparators[0].id == CACHE:
+            keys.append((st, st.left, 'group membership test'))
+    ctx.need(len(keys) >= 4, 'set_maskbits: keys stored into the cache not found')
+    for st, k_, what in keys:
+        ctx.check('C07.CASEFOLD-STORE', folded(k_), f_set, k_, 'set_maskbits: %s `%s` is upper-cased like every query' % (what, src(k_)[:50]),
+                  msg='set_maskbits stores the %s `%s` as spelled in the file while every lookup upper-cases the query: a group, alias or label '
+                      'that is not all upper case in the file can never be found, under any spelling' % (what, src(k_)[:60]),
+                  construct='%s not folded: %s' % (what, src(k_)[:70]))
+    # ---- WRAP: only a str is a single label
+    wraps = [n for n in walk_local(f_val.node) if isinstance(n, ast.If) and any(isinstance(c, ast.Call) and call_name(c) == 'isinstance' for c in ast.walk(n.test))]
+    ctx.need(wraps, 'sdss_flagval: the single-label test was not found')
+    w = wraps[0]
+    t_ = w.test
+    neg = False
+    while isinstance(t_, ast.UnaryOp) and isinstance(t_.op, ast.Not):
+        neg = not neg
+        t_ = t_.operand
+    okw = False
+    if isinstance(t_, ast.Call) and call_name(t_) == 'isinstance' and len(t_.args) == 2:
+        typ = t_.args[1]
+        names = {dotted(e) for e in (typ.elts if isinstance(typ, ast.Tuple) else [typ])}
+        okw = (not neg) and names <= {'str', 'bytes', 'np.str_', 'np.bytes_'} and 'str' in names
+    ctx.check('C07.WRAP', okw, f_val, w.test, 'a single label is recognised by being a str (`%s`); every other collection is iterated' % src(w.test),
+              msg='sdss_flagval decides "single label" by `%s`: a tuple, set or array of labels is wrapped as if it were one label' % src(w.test),
+              construct='single-label test: ' + src(w.test))
     # ---- NO-MEMO
     for g in sorted(scope, key=lambda x: x.qualname):
         decos = [src(d) for d in g.node.decorator_list]
